@@ -51,6 +51,7 @@ theorem insertLeaf_eq (parent : Option Nat) (cur : Leaf) (key lsn : Nat) (value 
       if value.length > c_maxValueSize then throw .rowTooLarge else
       if (findPos (keysOfLeaf cur) key).1 != cur.cells.length then
         unmodelledS "insertLeafCell: not at the end of the leaf" else
+      if cur.hasR then unmodelledS "insertLeafCell: append to a leaf that was split (physical slot)" else
       (putNode (.leaf (leafApp cur key lsn value)) (some true) >>= fun _ =>
         if !isFullLeaf (leafApp cur key lsn value) then pure root
         else leafSplit parent (leafApp cur key lsn value) lsn root) := by
@@ -223,7 +224,7 @@ theorem leafSplit_prefix (s : Store) (parent : Option Nat) (cur1 : Leaf) (lsn ro
   · rw [r3]; exact .inr rfl
 
 theorem insertLeaf_view_nosplit (s : Store) (parent : Option Nat) (cur : Leaf) (key lsn : Nat) (value : Bytes)
-    (root : Nat) (hpos : ∀ x ∈ keysOfLeaf cur, x < key) (hv : value.length ≤ c_maxValueSize)
+    (root : Nat) (hpos : ∀ x ∈ keysOfLeaf cur, x < key) (hR : cur.hasR = false) (hv : value.length ≤ c_maxValueSize)
     (hfull : (leafApp cur key lsn value).cells.length < c_maxLeafNodeCells) :
     ∃ s', insertLeaf parent cur key lsn value root s = .ok root s' ∧
       view s' = upd (view s) cur.off (.leaf (leafApp cur key lsn value), true) ∧
@@ -232,14 +233,14 @@ theorem insertLeaf_view_nosplit (s : Store) (parent : Option Nat) (cur : Leaf) (
   have hlen : (keysOfLeaf cur).length = cur.cells.length := by simp [keysOfLeaf]
   have hnf : isFullLeaf (leafApp cur key lsn value) = false := by
     simp only [isFullLeaf, ge_iff_le, decide_eq_false_iff_not]; omega
-  simp only [hlen, bne_self_eq_false, Bool.false_eq_true, if_false, gt_iff_lt, Nat.not_lt.mpr hv, hnf,
+  simp only [hlen, hR, bne_self_eq_false, Bool.false_eq_true, if_false, gt_iff_lt, Nat.not_lt.mpr hv, hnf,
     Bool.not_false, if_true]
   obtain ⟨s1, e1, v1, n1, r1⟩ := putNode_some_spec s (.leaf (leafApp cur key lsn value)) true
   simp only [bind_ok e1]
   exact ⟨s1, rfl, v1, n1⟩
 
 theorem insertLeaf_view_split_none (s : Store) (cur : Leaf) (key lsn : Nat) (value : Bytes)
-    (root : Nat) (hpos : ∀ x ∈ keysOfLeaf cur, x < key) (hv : value.length ≤ c_maxValueSize)
+    (root : Nat) (hpos : ∀ x ∈ keysOfLeaf cur, x < key) (hR : cur.hasR = false) (hv : value.length ≤ c_maxValueSize)
     (hfull : ¬ (leafApp cur key lsn value).cells.length < c_maxLeafNodeCells)
     (h1 : cur.off ≠ s.hdr.nextFree) (h2 : cur.off ≠ s.hdr.nextFree + c_pageSize) :
     ∃ s', insertLeaf none cur key lsn value root s = .ok (s.hdr.nextFree + c_pageSize) s' ∧
@@ -253,7 +254,7 @@ theorem insertLeaf_view_split_none (s : Store) (cur : Leaf) (key lsn : Nat) (val
   have hlen : (keysOfLeaf cur).length = cur.cells.length := by simp [keysOfLeaf]
   have hnf : isFullLeaf (leafApp cur key lsn value) = true := by
     simp only [isFullLeaf, ge_iff_le, decide_eq_true_eq]; omega
-  simp only [hlen, bne_self_eq_false, Bool.false_eq_true, if_false, gt_iff_lt, Nat.not_lt.mpr hv, hnf,
+  simp only [hlen, hR, bne_self_eq_false, Bool.false_eq_true, if_false, gt_iff_lt, Nat.not_lt.mpr hv, hnf,
     Bool.not_true]
   obtain ⟨s1, e1, v1, n1, r1⟩ := putNode_some_spec s (.leaf (leafApp cur key lsn value)) true
   simp only [bind_ok e1]
@@ -280,7 +281,7 @@ theorem insertLeaf_view_split_none (s : Store) (cur : Leaf) (key lsn : Nat) (val
 
 theorem insertLeaf_view_split_some (s : Store) (pOff : Nat) (cur : Leaf) (key lsn : Nat) (value : Bytes)
     (root : Nat) (pn : Internal) (dP : Bool) (last : ICell)
-    (hpos : ∀ x ∈ keysOfLeaf cur, x < key) (hv : value.length ≤ c_maxValueSize)
+    (hpos : ∀ x ∈ keysOfLeaf cur, x < key) (hR : cur.hasR = false) (hv : value.length ≤ c_maxValueSize)
     (hfull : ¬ (leafApp cur key lsn value).cells.length < c_maxLeafNodeCells)
     (hvP : view s pOff = some (.internal pn, dP)) (hpo : pn.off = pOff)
     (hlast : pn.cells.getLast? = some last)
@@ -297,7 +298,7 @@ theorem insertLeaf_view_split_some (s : Store) (pOff : Nat) (cur : Leaf) (key ls
   have hlen : (keysOfLeaf cur).length = cur.cells.length := by simp [keysOfLeaf]
   have hnf : isFullLeaf (leafApp cur key lsn value) = true := by
     simp only [isFullLeaf, ge_iff_le, decide_eq_true_eq]; omega
-  simp only [hlen, bne_self_eq_false, Bool.false_eq_true, if_false, gt_iff_lt, Nat.not_lt.mpr hv, hnf,
+  simp only [hlen, hR, bne_self_eq_false, Bool.false_eq_true, if_false, gt_iff_lt, Nat.not_lt.mpr hv, hnf,
     Bool.not_true]
   obtain ⟨s1, e1, v1, n1, r1⟩ := putNode_some_spec s (.leaf (leafApp cur key lsn value)) true
   simp only [bind_ok e1]
